@@ -7,6 +7,7 @@ import (
 	"verif/harness/internal/gen"
 	"verif/harness/internal/mon"
 	"verif/harness/internal/rng"
+	"verif/harness/internal/wire"
 )
 
 // idxGen draws store-level indexes around a window centre.
@@ -219,8 +220,15 @@ func (h *storeHist) step() {
 		h.pool = append([]*mon.MonStore{}, keep...)
 	}
 	r, s := h.r, h.main
-	op := r.Pick(30, 18, 6, 10, 5, 4, 6, 6, 3, 2, 4, 3)
+	op := r.Pick(30, 18, 6, 10, 5, 4, 6, 6, 3, 2, 4, 3, 3)
 	switch op {
+	case 12:
+		// a block written by hand from the format documentation (the library's own encoders only ever write
+		// ascending indexes and stride 1): signed deltas, negative or zero strides, repeated indexes
+		h.opKinds["DecodeBlock"] = true
+		if blk := h.handBlock(s); blk != nil {
+			s.DecodeBlock(blk)
+		}
 	case 11:
 		// a protobuf message is a value of its own: taken now, consumed some events later (the store it came
 		// from has been added to, reweighted, cleared and refilled in between)
@@ -387,6 +395,75 @@ func (h *storeHist) step() {
 		return
 	}
 	h.check(h.main)
+}
+
+// handBlock writes a store block in one of the three documented layouts whose bins all lie in the window of s.
+func (h *storeHist) handBlock(s *mon.MonStore) *wire.Block {
+	r := h.r
+	n := []int{0, r.Range(1, 4), r.Range(4, 40), r.Range(40, 90)}[r.Pick(1, 4, 4, 1)]
+	switch r.Intn(3) {
+	case 0, 1:
+		withCounts := r.Bool()
+		sub := wire.SubBinsDeltas
+		if withCounts {
+			sub = wire.SubBinsDeltasCounts
+		}
+		blk := &wire.Block{Flag: wire.Flag(wire.TypePositive, byte(sub))}
+		prev := 0
+		mode := r.Intn(3) // any order / descending / ascending with repeats
+		cur := h.drawIndex(s)
+		for i := 0; i < n; i++ {
+			var idx int
+			switch mode {
+			case 0:
+				idx = h.drawIndex(s)
+			case 1:
+				idx = cur - r.Range(0, 3)
+			default:
+				idx = cur + r.Range(0, 2)
+			}
+			if !h.inWindow(s.Spec, idx) || idx <= math.MinInt32 || idx >= math.MaxInt32 {
+				idx = cur // stay inside the store's window and inside the int32 index range
+			}
+			cur = idx
+			w := 1.0
+			if withCounts {
+				w = h.budget.Weight(r, 8, 1)
+				if r.P(0.05) {
+					w = 0
+				}
+			} else if !h.budget.Charge(1) {
+				break
+			}
+			blk.Deltas = append(blk.Deltas, int64(idx-prev))
+			if withCounts {
+				blk.Counts = append(blk.Counts, w)
+			}
+			prev = idx
+		}
+		blk.N = uint64(len(blk.Deltas))
+		return blk
+	default:
+		stride := []int{1, -1, 2, -2, 3, -5, 32, -32, 0}[r.Pick(3, 4, 2, 2, 1, 1, 1, 1, 1)]
+		first := h.drawIndex(s)
+		if stride == 0 && n > 6 {
+			n = 6
+		}
+		for n > 0 && (!h.inWindow(s.Spec, first+(n-1)*stride) || first+(n-1)*stride <= math.MinInt32 || first+(n-1)*stride >= math.MaxInt32) {
+			n /= 2
+		}
+		blk := &wire.Block{Flag: wire.Flag(wire.TypePositive, byte(wire.SubBinsContiguous)), First: int64(first), Stride: int64(stride)}
+		for i := 0; i < n; i++ {
+			w := h.budget.Weight(r, 8, 1)
+			if r.P(0.05) {
+				w = 0
+			}
+			blk.Counts = append(blk.Counts, w)
+		}
+		blk.N = uint64(len(blk.Counts))
+		h.c.Count("decode_block.stride."+map[bool]string{true: "negative", false: "non_negative"}[stride < 0], 1)
+		return blk
+	}
 }
 
 // prefix forces an interesting layout before the random walk.
